@@ -19,7 +19,7 @@ META = {
              'with |j| <= 64, offset m/2^e (|m| <= 4096, e <= 3, half of them shifted by an integer so that '
              'y >= 0 when the bound on m allows), x0 in 0..8 (30 %: -64..64, the axis may cross zero), layouts {C,F,view,int64 when integral}; quick: '
              'orientation class drawn uniformly from {rising, falling, V, Lambda, flat first arm, flat second arm}, '
-             'arms <= 12; thorough: every ordered slope pair (129*128) once, arms to 64, plus long arms of '
+             'arms <= 12, plus long elbows of 1010..1400 segments, one per shard with its corner at 2^k - 1, 2^k or 2^k + 1; thorough: every ordered slope pair (129*128) once, arms to 64, plus long arms of '
              '150-2000 segments; each elbow through 19 detector configurations (+ kneedle.knee(t=0) on monotone '
              'elbows); distinct non-trivial = (orientation class, la, lb, j1, j2)'),
     'require': {'elbow:curvature': 500, 'elbow:dfdt': 500, 'elbow:menger': 500,
